@@ -82,7 +82,7 @@ def run(tier):
     races = race_reports(logdir)
     for key, txt in races:
         V.disagree(key, {"race_report": txt})
-    lines, byid = proto.to_trace(obs)
+    lines, byid = proto.to_trace(obs, "C10")
     rejected, tr = proto.validate_trace("c10", lines, timeout=600)
     bycase = {c["id"]: c for c in cases}
     for rid in sorted(rejected):
